@@ -317,3 +317,249 @@ Proof.
       * apply refs_set; [exact Hok|exact I].
       * apply uniq_set_plain; [exact U|exact I].
 Qed.
+
+(* ------------------------------------------------------------------ ONewEntry / ONewRel *)
+Lemma spec_relrec_inv sp r : spec_relrec sp = Some r -> sp = rel_spec r /\ new_only r = true.
+Proof.
+  destruct sp; try discriminate. cbn [spec_relrec]. destruct (new_only _) eqn:E; [|discriminate]. intros [= <-]. auto.
+Qed.
+Lemma spec_entry_inv sp e : spec_entry sp = Some e -> sp = entry_spec e /\ forallb new_only e = true.
+Proof.
+  destruct sp as [s|l|l|l]; try discriminate. cbn [spec_entry]. unfold entry_spec. revert e.
+  induction l as [|x l IH]; intros e H; cbn [map all_some] in H.
+  - injection H as <-. auto.
+  - destruct (spec_relrec x) as [r|] eqn:Ex; [|discriminate]. destruct (all_some (map spec_relrec l)) as [e'|]; [|discriminate].
+    injection H as <-. destruct (spec_relrec_inv _ _ Ex) as (-> & Hr). destruct (IH e' eq_refl) as (E & He).
+    injection E as ->. cbn [map forallb]. rewrite Hr, He. auto.
+Qed.
+Lemma ref_ok_grow ts ts2 tid l o x : ref_ok ts tid l o x -> ref_ok (ts ++ ts2) tid l o x.
+Proof. apply ref_ok_ext. intros j sl H _. now apply nth_error_app_l. Qed.
+
+Lemma step_new_entry b sv st a k sp a' tr : Rel b sv st a -> h_op (ONewEntry k sp) a = Some (a', tr) ->
+  exists out st', run_op fixed (ONewEntry k sp) st = Ok (out, st') /\ Rel b sv st' a' /\ tr = [].
+Proof.
+  destruct st as [ts rs]. intros (tid & ri & l & HT & Hw & Hc & H0 & Hok & U) Ha. cbn [trees regs] in *.
+  cbn [h_op] in Ha. destruct (spec_entry sp) as [e|] eqn:Esp; [|discriminate]. injection Ha as <- <-.
+  destruct (spec_entry_inv _ _ Esp) as (-> & He).
+  destruct (build_relation_greens_new e He ts rs) as (junk & R).
+  pose proof (nth_error_Some_lt _ _ _ HT) as Hlt.
+  set (ts0 := ts ++ junk). set (te := length ts0).
+  exists (4%N, Some (text (centry_tree e))), (mk_state (ts0 ++ [mk_slot true 0 (centry_tree e)]) (set_reg_l (ereg k) (Some (mk_hnd te [])) rs)).
+  split; [|split; [|reflexivity]].
+  - apply runs_intro. cbn [run_op]. eapply runs_try_build.
+    + unfold build_entry, entry_spec. rbind; [exact R|]. rbind; [apply runs_alloc|]. apply runs_set_reg.
+    + unfold reg_text, node_of_reg.
+      rbind; [rbind; [apply runs_get_reg; apply nth_error_set_reg_l_eq|]; eapply runs_node_of; [apply nth_error_app_at|reflexivity]|].
+      rdone.
+  - exists tid, ri, l. cbn [trees regs h_f h_reg]. split; [apply nth_error_app_l; apply nth_error_app_l; exact HT|].
+    split; [exact Hw|]. split; [exact Hc|]. split; [rewrite upd_other by apply ereg_neq0; exact H0|].
+    assert (Hok0 : forall q, ref_ok ts0 tid l (reg_at rs q) (h_reg a q)) by (intros q; apply ref_ok_grow, Hok).
+    split.
+    + apply refs_set; [intros q; apply ref_ok_grow, Hok0|]. cbn [ref_ok]. exists te. split; [reflexivity|].
+      split; [unfold te, ts0; rewrite app_length; lia|]. split; [apply nth_error_app_at|exact He].
+    + eapply uniq_set_new; [exact U|exact Hok0].
+Qed.
+
+Lemma step_new_rel b sv st a k sp a' tr : Rel b sv st a -> h_op (ONewRel k sp) a = Some (a', tr) ->
+  exists out st', run_op fixed (ONewRel k sp) st = Ok (out, st') /\ Rel b sv st' a' /\ tr = [].
+Proof.
+  destruct st as [ts rs]. intros (tid & ri & l & HT & Hw & Hc & H0 & Hok & U) Ha. cbn [trees regs] in *.
+  cbn [h_op] in Ha. destruct (spec_relrec sp) as [r|] eqn:Esp; [|discriminate]. injection Ha as <- <-.
+  destruct (spec_relrec_inv _ _ Esp) as (-> & Hr).
+  pose proof (nth_error_Some_lt _ _ _ HT) as Hlt.
+  exists (4%N, Some (text (crel_tree r))), (mk_state (ts ++ [mk_slot true 0 (crel_tree r)]) (set_reg_l (rreg k) (Some (mk_hnd (length ts) [])) rs)).
+  split; [|split; [|reflexivity]].
+  - apply runs_intro. cbn [run_op]. eapply runs_try_build.
+    + rewrite (rel_spec_new _ Hr). cbn [build_relation]. rewrite (crel_tree_new _ Hr).
+      rbind; [apply runs_alloc|]. apply runs_set_reg.
+    + unfold reg_text, node_of_reg.
+      rbind; [rbind; [apply runs_get_reg; apply nth_error_set_reg_l_eq|]; eapply runs_node_of; [apply nth_error_app_at|reflexivity]|].
+      rdone.
+  - exists tid, ri, l. cbn [trees regs h_f h_reg]. split; [apply nth_error_app_l; exact HT|].
+    split; [exact Hw|]. split; [exact Hc|]. split; [rewrite upd_other by apply rreg_neq0; exact H0|].
+    split.
+    + apply refs_set; [intros q; apply ref_ok_grow, Hok|]. cbn [ref_ok]. exists (length ts). split; [reflexivity|].
+      split; [lia|]. split; [apply nth_error_app_at|exact Hr].
+    + eapply uniq_set_new; [exact U|exact Hok].
+Qed.
+
+(* ------------------------------------------------------------------ Relations::insert / push *)
+Lemma lentries_firstn_le n l : length (lentries (firstn n l)) <= length (lentries l).
+Proof. rewrite <- (firstn_skipn n l) at 2. rewrite lentries_app, app_length. lia. Qed.
+Lemma lentries_firstn_skipn n l : length (lentries (firstn n l)) + length (lentries (skipn n l)) = length (lentries l).
+Proof. rewrite <- (firstn_skipn n l) at 3. now rewrite lentries_app, app_length. Qed.
+
+(* where an entry is after an insert: the splice (pos, new) of the code against the layout *)
+Lemma insert_entry_pos l i le G pos new i0 ci e0 :
+  insert_plan fixed (map rt l) i G = (pos, new) -> nth_entry l i0 = Some (ci, e0) ->
+  nth_entry (a_insert l i le) (if i <=? i0 then S i0 else i0)
+  = Some ((if pos <=? ci then ci + length new else ci), e0).
+Proof.
+  intros Hp He. destruct (nth_entry_entries _ _ _ _ He) as (pre & post & -> & <- & <-).
+  unfold insert_plan in Hp. rewrite (nth_index_map rt is_entry is_re) in Hp by apply is_entry_rt. unfold a_insert.
+  destruct (nth_index is_re i (pre ++ RE e0 :: post)) as [ci0|] eqn:E.
+  - cbn [fx_insert_first fixed negb andb] in Hp. injection Hp as <- <-. cbn [length].
+    destruct (nth_index_re_split _ _ _ E) as (pre0 & ex & post0 & El & L0 & Li).
+    assert (Epre0 : pre0 = firstn ci0 (pre ++ RE e0 :: post)) by (rewrite El, <- L0; now rewrite firstn_app_len).
+    destruct (ci0 <=? length pre) eqn:Ec.
+    + apply Nat.leb_le in Ec.
+      assert (Ef : firstn ci0 (pre ++ RE e0 :: post) = firstn ci0 pre).
+      { rewrite firstn_app. replace (ci0 - length pre) with 0 by lia. cbn [firstn]. now rewrite app_nil_r. }
+      assert (Es : skipn ci0 (pre ++ RE e0 :: post) = skipn ci0 pre ++ RE e0 :: post).
+      { rewrite skipn_app. replace (ci0 - length pre) with 0 by lia. reflexivity. }
+      assert (Hi : i <=? length (lentries pre) = true).
+      { apply Nat.leb_le. rewrite <- Li, Epre0, Ef. apply lentries_firstn_le. }
+      rewrite Hi. unfold insert_at. rewrite Ef, Es.
+      replace (firstn ci0 pre ++ [RE le; RC; RW w_sp] ++ skipn ci0 pre ++ RE e0 :: post)
+        with ((firstn ci0 pre ++ [RE le; RC; RW w_sp] ++ skipn ci0 pre) ++ RE e0 :: post)
+        by (now rewrite <- !app_assoc).
+      replace (S (length (lentries pre))) with (length (lentries (firstn ci0 pre ++ [RE le; RC; RW w_sp] ++ skipn ci0 pre))).
+      2:{ rewrite !lentries_app, !app_length. change (length (lentries [RE le; RC; RW w_sp])) with 1.
+          pose proof (lentries_firstn_skipn ci0 pre). lia. }
+      rewrite nth_entry_at. f_equal. f_equal. rewrite !app_length, firstn_length, skipn_length. cbn [length]. lia.
+    + apply Nat.leb_gt in Ec.
+      assert (Ef : firstn ci0 (pre ++ RE e0 :: post) = pre ++ RE e0 :: firstn (ci0 - length pre - 1) post).
+      { rewrite firstn_app. rewrite (firstn_all2 (n := ci0)) by lia.
+        destruct (ci0 - length pre) as [|d] eqn:Ed; [lia|]. cbn [firstn]. replace (S d - 1) with d by lia. reflexivity. }
+      assert (Hi : i <=? length (lentries pre) = false).
+      { apply Nat.leb_gt. rewrite <- Li, Epre0, Ef, lentries_split, app_length. cbn [length]. lia. }
+      rewrite Hi. unfold insert_at. rewrite Ef. rewrite <- app_assoc. cbn [app]. apply nth_entry_at.
+  - injection Hp as Hpos _.
+    assert (Hc : pos <=? length pre = false).
+    { apply Nat.leb_gt. rewrite <- Hpos, map_length, app_length. cbn [length]. lia. }
+    rewrite Hc. apply nth_index_re_none in E. rewrite lentries_split, app_length in E. cbn [length] in E.
+    assert (Hi : i <=? length (lentries pre) = false) by (apply Nat.leb_gt; lia).
+    rewrite Hi. rewrite <- app_assoc. cbn [app]. apply nth_entry_at.
+Qed.
+
+Lemma remap_id h q : remap (fun x => x) h q = h q.
+Proof. unfold remap. now destruct (h q). Qed.
+Lemma keeps_id : keeps (fun x => x).
+Proof. intros []; reflexivity. Qed.
+Lemma keeps_ins p : keeps (ins_ref p).
+Proof. intros []; reflexivity. Qed.
+
+Lemma nth_entry_bound l i ci e : nth_entry l i = Some (ci, e) -> i < length (lentries l).
+Proof.
+  intros H. destruct (nth_entry_entries _ _ _ _ H) as (pre & post & -> & _ & <-). rewrite lentries_split, app_length. cbn. lia.
+Qed.
+Lemma Rel_ext b sv st a a' : h_f a = h_f a' -> (forall q, h_reg a q = h_reg a' q) -> Rel b sv st a -> Rel b sv st a'.
+Proof.
+  intros Ef Er (tid & ri & l & HT & Hw & Hc & H0 & Hok & U). exists tid, ri, l. rewrite <- Ef, <- Er.
+  split; [exact HT|]. split; [exact Hw|]. split; [exact Hc|]. split; [exact H0|]. split.
+  - intros q. rewrite <- Er. apply Hok.
+  - intros q q' x x' g g' Hq Hx Hx'. rewrite <- Er in Hx, Hx'. now apply (U q q' x x').
+Qed.
+
+(* the machine: Relations::insert with an operand that is the root of its own tree *)
+Lemma insert_machine ts rs tid ri l idx re te G :
+  reg_at rs 0 = Some (mk_hnd tid []) -> nth_error ts tid = Some (mk_slot true ri (ltree l)) ->
+  reg_at rs re = Some (mk_hnd te []) -> nth_error ts te = Some (mk_slot true 0 G) ->
+  exists ts' F pos new,
+    insert_plan fixed (map rt l) idx G = (pos, new) /\
+    runs (relations_insert fixed 0 idx re) (mk_state ts rs) tt
+         (mk_state ts' (set_reg_l re None (map (option_map F) rs))) /\
+    nth_error ts' tid = Some (mk_slot true ri (relations_insert_green fixed (ltree l) idx G)) /\
+    (forall j sl, nth_error ts j = Some sl -> j <> tid -> nth_error ts' j = Some sl) /\
+    (forall g, h_tid g < length ts -> above tid [] g -> F g = g) /\
+    (forall c rest, F (mk_hnd tid (c :: rest)) = mk_hnd tid ((if pos <=? c then c + length new else c) :: rest)).
+Proof.
+  intros H0 HT Hre HE.
+  pose proof (insert_plan_frame fixed (map rt l) idx G) as Hpl.
+  destruct (insert_plan fixed (map rt l) idx G) as [pos new] eqn:Epl. destruct Hpl as [Hpos _].
+  destruct (m_insert_fresh_spec new ts rs 0 tid ri (ltree l) [] ROOT (map rt l) pos (reg_at_nth _ _ _ H0) HT eq_refl Hpos)
+    as (ts' & F & R & L & T' & O & A & B).
+  exists ts', F, pos, new. split; [reflexivity|]. split; [|split; [|split; [|split; [exact A|exact B]]]].
+  - unfold relations_insert. rbind; [apply runs_get_reg; apply reg_at_nth; exact H0|].
+    rbind; [eapply runs_node_of; [exact HT|reflexivity]|].
+    rbind; [unfold node_of_reg; rbind; [apply runs_get_reg; apply reg_at_nth; exact Hre|]; eapply runs_node_of; [exact HE|reflexivity]|].
+    cbn [fx_in_place fixed s_tree children ltree]. rewrite Epl.
+    rbind; [exact R|]. apply runs_set_reg.
+  - rewrite T'. unfold relations_insert_green, ltree. cbn [children]. rewrite Epl. reflexivity.
+  - intros j sl Hj Hn. rewrite O; [exact Hj|exact Hn|eapply nth_error_Some_lt; exact Hj].
+Qed.
+
+(* the relation after an insert: [phi] is what the abstract state does to the references *)
+Lemma insert_core b sv ts rs a tid ri l k e idx o' phi :
+  nth_error ts tid = Some (mk_slot true ri (ltree l)) -> lwf b l = true -> lcontent l = (h_f a, sv) ->
+  h_reg a 0 = Some Root -> (forall q, ref_ok ts tid l (reg_at rs q) (h_reg a q)) -> new_uniq rs (h_reg a) ->
+  h_reg a (ereg k) = Some (ENew e) ->
+  operands_ok o' = true -> x_in_range (h_f a) o' = true ->
+  a_op o' l = option_map (a_insert l idx) (operand_lentry e) ->
+  keeps phi ->
+  (forall i0, i0 < length (lentries l) -> phi (ELive i0) = ELive (if idx <=? i0 then S i0 else i0)) ->
+  (forall i0 j, i0 < length (lentries l) -> phi (RLive i0 j) = RLive (if idx <=? i0 then S i0 else i0) j) ->
+  exists ts' rs',
+    runs (relations_insert fixed 0 idx (ereg k)) (mk_state ts rs) tt (mk_state ts' rs') /\
+    Rel b sv (mk_state ts' rs') (mk_hstate (xstep (h_f a) o') (upd (ereg k) None (remap phi (h_reg a)))).
+Proof.
+  intros HT Hw Hc H0 Hok U Hk Ho Hx Hop K Pe Pr.
+  pose proof (rel_root ts rs a tid l H0 Hok) as Hr0.
+  pose proof (Hok (ereg k)) as Hek. rewrite Hk in Hek. destruct (reg_at rs (ereg k)) as [g|] eqn:Eg; [|contradiction].
+  cbn [ref_ok] in Hek. destruct Hek as (te & -> & Hte & HE & Hnew).
+  assert (Hx' : x_in_range (fst (lcontent l)) o' = true) by (rewrite Hc; exact Hx).
+  destruct (live_step_tree b o' l Hw Ho Hx') as (l' & Ha & _ & Hw' & Hc' & _).
+  rewrite Hop in Ha. destruct (operand_lentry e) as [le|] eqn:Ele; [|discriminate]. cbn [option_map] in Ha. injection Ha as <-.
+  assert (EG : centry_tree e = lentry_tree le).
+  { destruct e as [|r rs0]; [discriminate|]. cbn [operand_lentry] in Ele. injection Ele as <-. now apply centry_is_lentry. }
+  destruct (insert_machine ts rs tid ri l idx (ereg k) te (centry_tree e) Hr0 HT Eg HE)
+    as (ts' & F & pos & new & Epl & R & T' & O & A & B).
+  pose proof (nth_error_Some_lt _ _ _ HT) as Hlt.
+  exists ts', (set_reg_l (ereg k) None (map (option_map F) rs)). split; [exact R|].
+  exists tid, ri, (a_insert l idx le). cbn [trees regs h_f h_reg].
+  split; [rewrite T', EG; f_equal; f_equal; apply insert_commute|]. split; [exact Hw'|].
+  split; [rewrite Hc', Hc; reflexivity|].
+  split; [rewrite upd_other by apply ereg_neq0; unfold remap; rewrite H0; cbn; now rewrite (K Root)|].
+  assert (HF : forall g, h_tid g < length ts -> h_tid g <> tid -> F g = g)
+    by (intros g Hg Hn; apply A; [exact Hg|now apply above_other]).
+  split.
+  - apply refs_set; [|exact I].
+    eapply refs_transport; [exact K|exact O|exact HF|apply A; [exact Hlt|apply above_root]| | |exact Hok].
+    + intros i0 ci e0 He0. rewrite B, (Pe i0) by (eapply nth_entry_bound; exact He0). cbn [ref_ok].
+      exists (if pos <=? ci then ci + length new else ci), e0. split; [|reflexivity].
+      rewrite EG in Epl. now apply (insert_entry_pos l idx le (lentry_tree le)).
+    + intros i0 j ci e0 cj He0 Hj. rewrite B, (Pr i0 j) by (eapply nth_entry_bound; exact He0). cbn [ref_ok].
+      exists (if pos <=? ci then ci + length new else ci), e0, cj. split; [|split; [exact Hj|reflexivity]].
+      rewrite EG in Epl. now apply (insert_entry_pos l idx le (lentry_tree le)).
+  - apply uniq_set_plain; [|exact I]. eapply uniq_transport; [exact K|exact HF|exact Hok|exact U].
+Qed.
+
+Lemma step_insert b sv st a i k a' tr : Rel b sv st a -> h_op (OInsert i k) a = Some (a', tr) ->
+  forallb operands_ok tr = true ->
+  exists out st', run_op fixed (OInsert i k) st = Ok (out, st') /\ Rel b sv st' a'.
+Proof.
+  destruct st as [ts rs]. intros HR Ha Ho. pose proof HR as (tid & ri & l & HT & Hw & Hc & H0 & Hok & U). cbn [trees regs] in *.
+  cbn [h_op] in Ha. pose proof (Hok (ereg k)) as Hk. destruct (h_reg a (ereg k)) as [x|] eqn:Ex.
+  - destruct x; try discriminate. injection Ha as <- <-. cbn [forallb] in Ho. rewrite andb_true_r in Ho.
+    destruct (insert_core b sv ts rs a tid ri l k e i (AInsert i e) (ins_ref i) HT Hw Hc H0 Hok U Ex Ho eq_refl eq_refl
+                (keeps_ins i) ltac:(reflexivity) ltac:(reflexivity)) as (ts' & rs' & R & HR').
+    exists (0%N, @None str), (mk_state ts' rs'). split; [|exact HR'].
+    apply runs_intro. cbn [run_op]. unfold with_reg. rbind; [apply reg_at_has|].
+    destruct (ref_some _ _ _ _ _ Hk) as (g & ->). rbind; [exact R|]. rdone.
+  - injection Ha as <- <-. apply ref_none in Hk. exists (1%N, @None str), (mk_state ts rs). split; [|exact HR].
+    apply runs_intro. cbn [run_op]. unfold with_reg. rbind; [apply reg_at_has|]. rewrite Hk. rdone.
+Qed.
+
+Lemma step_push b sv st a k a' tr : Rel b sv st a -> h_op (OPush k) a = Some (a', tr) ->
+  forallb operands_ok tr = true ->
+  exists out st', run_op fixed (OPush k) st = Ok (out, st') /\ Rel b sv st' a'.
+Proof.
+  destruct st as [ts rs]. intros HR Ha Ho. pose proof HR as (tid & ri & l & HT & Hw & Hc & H0 & Hok & U). cbn [trees regs] in *.
+  cbn [h_op] in Ha. pose proof (Hok (ereg k)) as Hk. destruct (h_reg a (ereg k)) as [x|] eqn:Ex.
+  - destruct x; try discriminate. injection Ha as <- <-. cbn [forallb] in Ho. rewrite andb_true_r in Ho.
+    assert (Hn : count_if is_re l = length (lentries l)).
+    { clear. induction l as [|x r IH]; [reflexivity|]. rewrite count_if_cons, IH. destruct x; reflexivity. }
+    destruct (insert_core b sv ts rs a tid ri l k e (count_if is_re l) (APush e) (fun x => x) HT Hw Hc H0 Hok U Ex Ho eq_refl eq_refl
+                keeps_id) as (ts' & rs' & R & HR').
+    { intros i0 Hi. replace (count_if is_re l <=? i0) with false by (symmetry; apply Nat.leb_gt; lia). reflexivity. }
+    { intros i0 j Hi. replace (count_if is_re l <=? i0) with false by (symmetry; apply Nat.leb_gt; lia). reflexivity. }
+    exists (0%N, @None str), (mk_state ts' rs'). split.
+    + apply runs_intro. cbn [run_op]. unfold with_reg. rbind; [apply reg_at_has|].
+      destruct (ref_some _ _ _ _ _ Hk) as (g & ->). rbind; [|rdone]. unfold relations_push.
+      rbind; [apply runs_get_reg; apply reg_at_nth; apply (rel_root ts rs a tid l H0 Hok)|].
+      rbind; [eapply runs_children_of; [exact HT|reflexivity]|]. cbn [s_tree ltree children].
+      rewrite (count_if_map rt is_entry is_re) by apply is_entry_rt. exact R.
+    + eapply Rel_ext; [| |exact HR']; [reflexivity|]. intros q. cbn [h_reg]. unfold upd. destruct (q =? ereg k); [reflexivity|apply remap_id].
+  - injection Ha as <- <-. apply ref_none in Hk. exists (1%N, @None str), (mk_state ts rs). split; [|exact HR].
+    apply runs_intro. cbn [run_op]. unfold with_reg. rbind; [apply reg_at_has|]. rewrite Hk. rdone.
+Qed.
